@@ -10,6 +10,9 @@
 
 #include "IO/ProgramOptions.hpp"
 
+#include <array>
+#include <utility>
+
 vfps::ProgramOptions::ProgramOptions() :
     _configfile("default.cfg"),
     I_b({3e-3f}),
@@ -361,10 +364,25 @@ bool vfps::ProgramOptions::parse(int ac, char** av)
                                      + _configfile + "\".";
                 Display::printText(message);
                 store(parse_config_file(ifs, _cfgfileopts), _vm);
-                notify(_vm);
-                if(_vm.count("SyncFreq")) {
-                    _vm.at("SynchrotronFrequency").value()
-                            = _vm["SyncFreq"].value();
+                /* A legacy name acts like the current name: its value is
+                 * used unless the current name was given explicitly
+                 * (command line or config file), which then takes precedence.
+                 */
+                const std::array<std::pair<const char*,const char*>,3> aliases{{
+                    {"SyncFreq","SynchrotronFrequency"},
+                    {"RFVoltage","AcceleratingVoltage"},
+                    {"steps","StepsPerTs"}
+                }};
+                for (const auto& alias : aliases) {
+                    if (_vm.count(alias.first)) {
+                        if (_vm[alias.second].defaulted()) {
+                            _vm.at(alias.second).value()
+                                    = _vm[alias.first].value();
+                        } else {
+                            _vm.at(alias.first).value()
+                                    = _vm[alias.second].value();
+                        }
+                    }
                 }
                 notify(_vm);
             }
